@@ -362,7 +362,7 @@ def _run_shard(args):
 def run_correspondence(prop, header, run_fn, coq_cases, shard=400, timeout=900, jobs=None):
     """coq_cases: list of strings "(case_term, obs_term)".  Returns (mismatch indices,
     list of shard errors)."""
-    d = BUILD / "cases" / prop
+    d = BUILD / "cases" / f"{prop}_{os.getpid()}"     # per process: concurrent runs must not share shards
     if d.exists():
         shutil.rmtree(d)
     d.mkdir(parents=True)
@@ -386,12 +386,14 @@ def run_correspondence(prop, header, run_fn, coq_cases, shard=400, timeout=900, 
                 errors.append(f"{path.name}: {err}")
             else:
                 mism += [k + i for i in idx]
+    if not errors and not os.environ.get("VERIF_KEEP_CASES"):
+        shutil.rmtree(d, ignore_errors=True)
     return mism, errors
 
 
 def model_observation(prop, header, run_fn, coq_case_term, timeout=300):
     """Evaluate the model on one case; returns Coq's printed term (raw text)."""
-    d = BUILD / "cases" / prop
+    d = BUILD / "cases" / f"{prop}_explain_{os.getpid()}"
     d.mkdir(parents=True, exist_ok=True)
     path = d / f"explain_{prop}_{os.getpid()}.v"
     with open(path, "w") as f:
